@@ -78,10 +78,13 @@ func c05allocated(fn func()) uint64 {
 }
 
 // c05base builds one well-formed response frame (uncompressed) and returns the positions of its length / count fields.
-func c05base(r *rand.Rand, kind int) (version int, frame []byte, fields []cqlref.Field, name string, rows *c04rows) {
+func c05base(r *rand.Rand, kind int, forceVersion int) (version int, frame []byte, fields []cqlref.Field, name string, rows *c04rows) {
 	version = 1 + r.Intn(5)
 	if r.Intn(3) == 0 {
 		version = 4
+	}
+	if forceVersion != 0 {
+		version = forceVersion
 	}
 	prefix := c04prefix(r, version)
 	stream := r.Intn(128)
@@ -314,7 +317,7 @@ func c05drain(it *gocql.Iter, how int) (rowsRead int, pan interface{}) {
 
 func c05frameCase(c *runner.Ctx, i int) {
 	r := c.Rng
-	version, frame, fields, name, _ := c05base(r, i)
+	version, frame, fields, name, _ := c05base(r, i, 0)
 	mut, class, detail := c05mutate(r, version, frame, fields, i/12)
 	if class == "" {
 		return
@@ -569,5 +572,16 @@ func c05typeStringCase(c *runner.Ctx, i int) {
 	}
 	if c.WantSample() {
 		c.Sample(wit)
+	}
+}
+
+// c05setStream rewrites the stream id of a response frame.
+func c05setStream(frame []byte, version, stream int) {
+	if version >= 3 {
+		if len(frame) >= 4 {
+			frame[2], frame[3] = byte(stream>>8), byte(stream)
+		}
+	} else if len(frame) >= 3 {
+		frame[2] = byte(stream)
 	}
 }
